@@ -863,17 +863,20 @@ class FileSet:
         # performance (see https://stackoverflow.com/q/1316767/9144990):
         gc.collect()
 
-        # We do not want to have any None as data
-        files, data = zip(*[
-            [info, content]
+        # We do not want to have any None as data (maybe nothing is left, so
+        # we cannot unpack a zip here)
+        results = [
+            (info, content)
             for info, content in results
             if content is not None
-        ])
+        ]
+        files = [info for info, _ in results]
+        data = [content for _, content in results]
 
         if return_info:
-            return list(files), list(data)
+            return files, data
         else:
-            return list(data)
+            return data
 
     def icollect(self, start=None, end=None, files=None,
                  **kwargs):
